@@ -131,7 +131,14 @@ func ffTailPAT(r *rand.Rand, n int) (absPAT, bool) {
 			}
 		}
 		if steerPAT(&p, crcTargets[r.Intn(len(crcTargets))]) {
-			return p, true
+			seen, ok := map[int]bool{}, true
+			for _, e := range p.Entries { // a program_number listed twice is not a well-formed table
+				ok = ok && !seen[e[0]]
+				seen[e[0]] = true
+			}
+			if ok {
+				return p, true
+			}
 		}
 	}
 	return absPAT{}, false
